@@ -179,13 +179,13 @@ func (p *Pipe) Marks() []Mark { return p.marks[:p.nmarks] }
 
 // Conn is one endpoint of a simulated connection; it implements net.Conn.
 type Conn struct {
-	s      *Sim
-	Name   string
-	rd, wr *Pipe
+	s       *Sim
+	Name    string
+	rd, wr  *Pipe
 	OnClose func() // scenario hook: this end was closed (first Close only)
-	rdl    int64 // read deadline (virtual ns), 0 = none
-	wdl    int64 // write deadline (virtual ns), 0 = none; applies to writes blocked on a full window
-	closed bool
+	rdl     int64  // read deadline (virtual ns), 0 = none
+	wdl     int64  // write deadline (virtual ns), 0 = none; applies to writes blocked on a full window
+	closed  bool
 	// PeerAddr, when set, is what RemoteAddr reports (several connections to one
 	// listening address)
 	PeerAddr string
